@@ -124,6 +124,11 @@ Definition curl_part (x : nat -> A) (I : nat) : A :=
 Definition normal_part (x : nat -> A) (I : nat) : A :=
   trg_map (fun e q => sumN 3 (fun c =>
      comp (snormal RO gt st e) c * fmm (fun se sp => comp (snormal RO gs ss se) c * src_map x se sp) e q 0%nat)) I.
+(* what make_scalar_hypersingular / the Maxwell evaluators do when their reuse guard holds: the test-side
+   transforms ARE the trial-side ones (target_curls_trans = source_curls_trans, dual_rwg_map from the domain) *)
+Definition curl_part_shared (x : nat -> A) (I : nat) : A :=
+  sumN 3 (fun c => from_points slot_pos ss Es quad (curl_val gs ss c)
+                     (fun e q => fmm (to_points slot_pos ss Es (curl_val gs ss c) x) e q 0%nat) I).
 Definition glue_laplace_hypersingular (x : nat -> A) : option (nat -> A) :=
   if maps_ok then Some (fun I => curl_part x I + sing_part x I) else None.
 Definition glue_helmholtz_hypersingular (k : A) (x : nat -> A) : option (nat -> A) :=
@@ -134,6 +139,10 @@ Definition glue_modhelm_hypersingular (k : A) (x : nat -> A) : option (nat -> A)
 (* make_maxwell_electric_field_boundary / make_maxwell_magnetic_field_boundary (no map_to_points involved) *)
 Definition to_rwg (c : nat) (x : nat -> A) : pvec := to_points slot_pos ss Es (rwg_val gs c) x.
 Definition from_rwg (c : nat) (r : pvec) : nat -> A := from_points slot_pos st Et quad (rwg_val gt c) r.
+Definition rwg_part (x : nat -> A) (I : nat) : A :=
+  sumN 3 (fun c => from_rwg c (fun e q => fmm (to_rwg c x) e q 0%nat) I).
+Definition rwg_part_shared (x : nat -> A) (I : nat) : A :=
+  sumN 3 (fun c => from_points slot_pos ss Es quad (rwg_val gs c) (fun e q => fmm (to_rwg c x) e q 0%nat) I).
 Definition glue_efield (mik ik : A) (x : nat -> A) (I : nat) : A :=
   ((sumN 3 (fun c => from_rwg c (fun e q => fmm (to_rwg c x) e q 0%nat) I)) * mik
    - rinv ik * from_points slot_pos st Et quad (div_val gt)
